@@ -146,6 +146,39 @@ pub fn u32_to_be_bytes_o(x: u32) -> (r: [u8; 4])
 pub fn u16_to_be(x: u16) -> (r: u16)
     ensures r as int == (x as int % 256) * 256 + x as int / 256,
 { x.to_be() }
+pub assume_specification [u16::to_be] (x: u16) -> (r: u16)
+    ensures r as int == (x as int % 256) * 256 + x as int / 256;
+
+/// `X.to_be_bytes()` is woven as `X.vx_be()`: same function, with its value spec (std's `to_be_bytes` cannot take an assumed
+/// specification because its return type mentions an associated const expression).
+pub trait VxBe16: Sized {
+    spec fn vx_int(self) -> int;
+    fn vx_be(self) -> (r: [u8; 2]) ensures r[0] as int == b16(self.vx_int(), 0), r[1] as int == b16(self.vx_int(), 1);
+}
+impl VxBe16 for u16 {
+    open spec fn vx_int(self) -> int { self as int }
+    #[verifier::external_body]
+    fn vx_be(self) -> (r: [u8; 2]) { self.to_be_bytes() }
+}
+/// the 32 bit form is specified through the opaque `b32` (see there); `lemma_b32` gives the numeric meaning
+pub trait VxBe32: Sized {
+    spec fn vx_int(self) -> int;
+    fn vx_be(self) -> (r: [u8; 4]) ensures r[0] as int == b32(self.vx_int(), 0), r[1] as int == b32(self.vx_int(), 1), r[2] as int == b32(self.vx_int(), 2), r[3] as int == b32(self.vx_int(), 3);
+}
+impl VxBe32 for u32 {
+    open spec fn vx_int(self) -> int { self as int }
+    #[verifier::external_body]
+    fn vx_be(self) -> (r: [u8; 4]) { self.to_be_bytes() }
+}
+/// byte i (0 = most significant) of a 16 bit number, opaque for the same reason as `b32`
+#[verifier::opaque]
+pub open spec fn b16(x: int, i: int) -> int { if i == 0 { x / 256 } else { x % 256 } }
+pub proof fn lemma_b16(x: int)
+    ensures b16(x, 0) == x / 256, b16(x, 1) == x % 256,
+{ reveal(b16); }
+pub proof fn lemma_b32(x: int)
+    ensures b32(x, 0) == x / 16777216, b32(x, 1) == (x / 65536) % 256, b32(x, 2) == (x / 256) % 256, b32(x, 3) == x % 256,
+{ reveal(b32); }
 
 // ---- arrayvec::ArrayVec: assumed specs over an uninterpreted view (arrayvec internals are not verified) -------------------
 pub uninterp spec fn av_view<T, const CAP: usize>(v: &arrayvec::ArrayVec<T, CAP>) -> Seq<T>;
